@@ -116,6 +116,24 @@ def main():
                 dfi = df.copy()
                 dfi.index = rng.permutation(len(df)) * 2 + 1
                 check(dfi, order, 1000, tag='row-labels')
+    # ---- consecutive calls in one process with a binding cap (the fair sampler rotates through the candidates): every
+    #      interaction column still carries the joint values of the constituents in ITS name
+    CR.GLOBAL_PRIOR_COMB_COUNTS.clear()
+    for batch in range(4):
+        n = 12
+        dfc = pd.DataFrame({f'f{i}': [str(rng.choice(['1', '11', 'a', ''])) for _ in range(n)] for i in range(4)})
+        dfc['label'] = [str(rng.integers(0, 2)) for _ in range(n)]
+        args_c = SimpleNamespace(label_column='label', interaction_order=2, combination_number_upper_bound=4, heuristic='MI-numba-randomized', reference_model_JSON='')
+        outc = CR.compute_combined_features(dfc, args_c, Pbar())
+        h.record(('consecutive', batch), True)
+        for name in [c for c in outc.columns if ' AND ' in c]:
+            comb = name.split(' AND ')
+            tuples = list(zip(*[dfc[c].tolist() for c in comb]))
+            if partition(outc[name].tolist()) != partition(tuples):
+                h.fail('combine_features.ensures.faithful', {'call': batch + 1, 'cap': 4, 'candidates': 6, 'column': name, 'rows': dfc.values.tolist()},
+                       'the column does not follow the joint values of the constituents in its name',
+                       obligations=['core_ranking.compute_combined_features/ensures.every_new_column_is_a_faithful_interaction'])
+                break
     # ---- scale: 2*10^5 distinct digit-id pairs must give 2*10^5 distinct interaction values (a 32-bit digest would collide)
     big_n = 200000
     ids = rng.permutation(big_n)
